@@ -183,3 +183,33 @@ def target_split(chk, prog, rid, cfg=None):
                            f"{what} is cut out of the target with {how}: a target with two '?' is split in the wrong place (the path then carries part of the query, or the query is truncated)",
                            cfg=cfg)
     chk.floor(f"Request construction sites" + (f" [{cfg}]" if cfg else ""), n, 1)
+
+
+def eof_is_error(chk, prog, rid, fn_rx, what, cfg=None, floor=1):
+    """At end of input (the peer closed the connection: read / read_until / read_line report Ok(0) and leave the buffer untouched) a line loop of a
+    message parser must fail, not end as if its terminator had been read.  The EOF scenario of every read loop (hv.eofscan, abstract execution
+    of the cycle with an empty buffer) is followed past the loop: it has to reach `return Err(..)`, or at least stop at a point from which no
+    `Ok(..)` return can be reached."""
+    from .. import eofscan
+    n = 0
+    for p, b in sorted(prog.bodies.items()):
+        if not core.re.search(fn_rx, p) or "promoted" in p:
+            continue
+        oks = core.ok_return_blocks(b, "Ok")
+        for r in eofscan.scan(prog, b, set()):
+            if r[1] != "exit" or r.outcome is None:
+                continue
+            n += 1
+            kind, v = r.outcome
+            if kind == "returned":
+                accepted = not (isinstance(v, tuple) and v[0] == "variant" and v[1] == "Err")
+                if isinstance(v, tuple) and v[0] == "future":
+                    accepted = not (isinstance(v[1], tuple) and v[1][0] == "variant" and v[1][1] == "Err")
+                if v is None:
+                    accepted = False        # the abstract store lost the returned value: not decided, never an alarm
+            else:
+                accepted = any(o in b.reachable([v]) for o in oks)
+            chk.ob(rid, p, f"end of input inside the {what}: the read loop around {core.short(b.term(r[0])['callee'])} ends in an error", not accepted,
+                   f"when the peer closes the connection at a line boundary the loop ends as if the terminating blank line had been read: a truncated {what} is "
+                   "accepted as complete", where=b.where(r[0]), cfg=cfg)
+    chk.floor(f"read loops followed past end of input [{cfg or 'A'}] ({what})", n, floor)
